@@ -57,9 +57,16 @@ class Outer(nn.Module):
   sel: tuple = ('params',)
   has_aux: bool = False
   out_dtype: str = 'float32'
+  # the variables / rngs lifting filters spelled out (every collection and
+  # stream a program can use is named) instead of the default True
+  explicit_filters: bool = False
 
   @nn.compact
   def __call__(self, prims, ct, vtan=None):
+    fk = {}
+    if self.explicit_filters:
+      fk = dict(rngs=['params', 'dropout', 'noise'],
+                variables=['params', 'batch_stats', 'counters'])
     child = L.make_module(L.thaw(self.spec), self.dim, name='child')
 
     def fn(mdl, *ps):
@@ -74,20 +81,20 @@ class Outer(nn.Module):
 
     if self.mode == 'vjp':
       out = nn.vjp(fn, child, *prims, has_aux=self.has_aux,
-                   vjp_variables=list(self.sel))
+                   vjp_variables=list(self.sel), **fk)
       y, bwd = out[0], out[1]
       grads = bwd(ct)
       return {'y': y, 'var_grads': grads[0], 'in_grads': grads[1:],
               'aux': out[2] if self.has_aux else None}
     if self.mode == 'jvp':
       y, y_t = nn.jvp(fn, child, tuple(prims), tuple(ct),
-                      variable_tangents=vtan)
+                      variable_tangents=vtan, **fk)
       return {'y': y, 'y_t': y_t}
     if self.mode == 'grad':
-      out = nn.grad(fn, child, *prims, has_aux=self.has_aux)
+      out = nn.grad(fn, child, *prims, has_aux=self.has_aux, **fk)
       g, aux = (out if self.has_aux else (out, None))
       return {'in_grads': g, 'aux': aux}
-    out = nn.value_and_grad(fn, child, *prims, has_aux=self.has_aux)
+    out = nn.value_and_grad(fn, child, *prims, has_aux=self.has_aux, **fk)
     if self.has_aux:
       (y, aux), g = out
     else:
@@ -134,6 +141,7 @@ def c07_case():
       'empty_tangent': st.booleans(),
       'out_dtype': st.sampled_from(['float32', 'float32', 'bfloat16',
                                     'float16']),
+      'explicit_filters': st.booleans(),
       'seed': st.integers(0, 2**16),
   })
 
@@ -145,7 +153,8 @@ def c07_case():
         'nn.grad / nn.value_and_grad x differentiated collections (params, '
         'batch_stats, both, none) x has_aux x 1-3 primal inputs (arrays, '
         'dicts, tuples) x output dtype float32/bfloat16/float16 x random '
-        'cotangents/tangents x outer mutable filter; '
+        'cotangents/tangents x outer mutable filter x variables / rngs lifting '
+        'filters left at their default or spelled out as complete lists; '
         'primal output, cotangent/tangent of every selected collection and '
         'every input equal jax.vjp/jvp/grad of the pure apply function, '
         'unselected collections are absent, forward state updates are '
@@ -170,7 +179,8 @@ def autodiff_vs_jax(case, ctx):
   case = dict(case, has_aux=case['has_aux'] and mode != 'jvp')
   odt = case.get('out_dtype', 'float32')
   outer = Outer(spec=spec, dim=D, mode=mode, sel=tuple(sel),
-                has_aux=case['has_aux'], out_dtype=odt)
+                has_aux=case['has_aux'], out_dtype=odt,
+                explicit_filters=case.get('explicit_filters', False))
   ctol = TOL if odt == 'float32' else dict(rtol=3e-2, atol=3e-2)
 
   def close(a, b):
@@ -303,6 +313,8 @@ def autodiff_vs_jax(case, ctx):
             '(published once)')
   status = {c: (c in sel) for c in child_cols if c != 'counters'}
   ctx.note(labels=[mode, 'aux' if case['has_aux'] else 'noaux', odt,
+                   'explicit-filters' if case.get('explicit_filters')
+                   else 'default-filters',
                    f'sel:{",".join(sel) or "none"}', f'prims{len(prims)}'],
            nontrivial=len(set(status.values())) >= 2 or any(
                k != 'arr' for k in case['prims']) or case['has_aux'])
